@@ -407,3 +407,37 @@ prop("C35", "rpc_auth", "all quadruples over users {admin, Admin, a-b_c.d, x} an
 prop("C36", "rpc_retry", "server scripts of 1-3 stream lives (0-2 messages, ending in error or EOF), retry budget 0-2, cancellation after 0/1/2 messages or never, for the two watch methods and one non-watch streaming method; non-trivial = more than one server-side stream",
      ["real exponential back-off (0.5 s initial): cases run in parallel", "the budget is read as Max retries after a first reopen (what the code does) or as Max reopen attempts; both are accepted",
       "after cancellation the number of server-side streams is re-read 150 ms later"])
+
+
+# =========================================================================== Lock: C18, C19
+@family("lock")
+def fam_lock(tier, base):
+    q = tier == "quick"
+    r = verif.model_check("Lock", "MC_Lock.cfg", coverage=True)
+    dead = [a for a in ("Call", "Acquire", "TryFail", "WaitTimeout", "Release", "Expire", "Notice", "Tick") if r.coverage.get(a, 0) == 0]
+    if dead:
+        raise Broken("Lock model: actions never taken: %s" % dead)
+    trace = base + ".trace.ndjson"
+    b = verif.build_driver("locks")
+    t1, t2 = base + ".t1", base + ".t2"
+    verif.run_driver(b, "TestLockContention", env={"VERIF_TRACE": t1, "VERIF_RUNS": 2 if q else 16, "VERIF_CYCLES": 15 if q else 40}, timeout=7000)
+    verif.run_driver(b, "TestLockLoss", env={"VERIF_TRACE": t2, "VERIF_RUNS": 2 if q else 12}, timeout=7000)
+    with open(trace, "w") as f:
+        f.write(open(t1).read() + open(t2).read())
+    os.remove(t1); os.remove(t2)
+    viols, tr = verif.validate_trace("Trace_Lock", "Trace_Lock.cfg", trace)
+    lines = verif.read_lines(trace)
+    cnt = lambda s: sum(1 for ln in lines if s in ln)
+    return dict(trace=trace, viols=viols, states=r.distinct, transitions=r.generated, configs=["MC_Lock.cfg", "Trace_Lock.cfg"], window=6,
+                traces={"C18": cnt('"ev":"LockRun"') + cnt('"ev":"LossRun"'), "C19": cnt('"ev":"LossRun"')},
+                samples={"*": [json.loads(x) for x in lines[:6]], "C19": [json.loads(x) for x in lines if '"Expire"' in x or '"CtxDone"' in x][:4]},
+                nontrivial={"C18": cnt('"ev":"Enter"'), "C19": cnt('"ev":"Expire"')}, actions_covered=r.coverage, exhaustive=True,
+                notes="model: 3 clients, exhaustive, liveness LostIsTold; code: %d lock cycles entered, %d failed attempts (try-lock on held lock / wait timeout), %d induced lock losses, on embedded etcd and miniredis" % (cnt('"ev":"Enter"'), cnt('"ev":"Fail"'), cnt('"ev":"Expire"')))
+
+
+_A_LK = ["lock objects come from store.CreateLock (etcd: meta.ETCD on embedded etcd; redis: store/redis on miniredis), one new object per attempt as calcium does",
+         "Enter is logged after Lock returned and Exit before Unlock is called, under one sequence counter: a logged overlap is a real overlap",
+         "real time: try-lock must fail within 400 ms (normal ~1 ms; redis retry back-off is 500 ms); a wait may give up at most 600 ms before its timeout (redis polls every 500 ms)"]
+prop("C18", "lock", "3-6 contenders x seeded random hold times (0-30 ms, some longer than the wait timeout) mixing lock and try-lock on one key, both backends; non-trivial = critical sections entered", _A_LK)
+prop("C19", "lock", "holder's lease revoked (etcd: lease of the lowest-revision key under the lock prefix) or TTL elapsed (miniredis FastForward plus real time) while a second contender waits; bound = ttl/3 + 700 ms; non-trivial = induced losses",
+     _A_LK + ["miniredis keeps virtual time: the redis TTL is elapsed both in real time and with FastForward"])
